@@ -141,6 +141,7 @@ BOUNDED_SYMBOLIC = {'CHText.resize_chunks_list': 2, 'FieldType.fit_to_width/fits
                     '_PPTableImpl._make_table_line': 3}
 USES = {'FieldType.fit_to_width/truncates/any_length': ['CHText.resize_chunks_list/any_length']}
 ASSUMED_LIBRARY = []
+NATIVE_SAMPLING = {'select': 'any_length', 'n': 150}
 CANARIES = [
     {'name': 'anylen_truncation_keeps_one_char_too_many', 'module': MP, 'function': 'FieldType.fit_to_width',
      'verify': 'FieldType.fit_to_width/truncates/any_length',
